@@ -14,7 +14,11 @@ RULE = ("orders: 2..600 bits (toy 2..9, 2^k, 2^k +- 1, byte-aligned and not: 161
         "hash output sizes 4, 5, 16, 20, 28, 32, 48, 64, 70 bytes (hashlib and custom hashlib-like classes); digests of 1 byte, "
         "shorter/equal/longer than the order, all-00/all-FF; extra entropy empty/one byte/random; retry_gen 0, 1, 2, 5; secexp "
         "1, n-1, random; RFC 6979 A.1/A.2 vectors; deterministic signatures on a toy curve of order 167 (messages that hit r = 0 "
-        "or s = 0 are searched for and included) and on named curves. A case is distinct by its operation line; non-trivial = "
+        "or s = 0 are searched for and included) and on named curves; three tiny prime-order curves (orders 7, 7, 11) exhaustively over "
+        "(d, surviving digest bits, sha1/sha256): runs of 5..13 refused RFC candidates; key-default-hash != digest-size combinations "
+        "(sha1 key with 32/48/64-byte digests, explicit hashfunc vs default) with the oracle = RFC 6979 under the hash in force; loops that "
+        "create, use and drop user-defined hash callables (functools.partial(blake2b, digest_size=k), hash classes) of alternating digest "
+        "sizes. A case is distinct by its operation line; non-trivial = "
         "generate_k returned a nonce")
 ASSUMPTIONS = [
     "HMAC and the hash output size are parameters of the model; theorems assume only that every HMAC output has holen > 0 bytes",
@@ -231,6 +235,58 @@ def stab_token(stab):
     return ",".join("%d.Z" % k if v is None else "%d.%d.%d" % (k, v[0], v[1]) for k, v in stab) or "-"
 
 
+TINY = [(11, 1, 5, 11, (0, 4)), (11, 2, 7, 7, (6, 2)), (13, 0, 7, 7, (7, 5))]   # (p, a, b, prime group order, generator)
+
+
+def tiny_curve(p, a, b, n, g):
+    """y^2 = x^3 + a x + b over GF(p) with prime group order n in 7..13: a quarter of all nonces give r = 0 or s = 0,
+    so runs of five and more refused RFC candidates occur (the retry loop must keep going)"""
+    from ecdsa.ellipticcurve import CurveFp, PointJacobi
+    from ecdsa.curves import Curve
+    c = CurveFp(p, a, b)
+    return Curve("tiny_p%d_a%d_b%d" % (p, a, b), c, PointJacobi(c, g[0], g[1], 1, n, generator=True), (1, 2, 0))
+
+
+def tiny_cases():
+    """deterministic and exhaustive: every d, every value of the 4 bits of the digest that survive truncation (two
+    fillings of the other bits), two hashes"""
+    for prm in TINY:
+        cv = tiny_curve(*prm)
+        for d in range(1, prm[3]):
+            for hf in (hashlib.sha1, hashlib.sha256):
+                for top in range(16):
+                    for low in (0, 15):
+                        yield prm, cv, d, hf, bytes([top * 16 + low])
+
+
+def churn_sizes(seed_val):
+    base = [16, 32, 20, 64, 28, 48, 24, 40]
+    return [base[(i * 3 + seed_val) % len(base)] for i in range(48)]
+
+
+def check_hash_churn(rfc6979, order, secexp, digest, sizes, kind):
+    """user-defined hash callables of alternating digest sizes are created, used once and dropped (so that a later one
+    may land on the address of an earlier one); every nonce must be the RFC 6979 nonce for the hash handed in.
+    Returns a description of the first failure or None.  The whole loop is the input: it must be replayed as a whole."""
+    import functools, gc
+    for i, size in enumerate(sizes):
+        if kind == "partial":
+            hf = functools.partial(hashlib.blake2b, digest_size=size)
+        else:
+            hf = make_hash(size)
+        want = ref_generate_k(order, secexp, hf, digest, 0, b"")
+        try:
+            got = rfc6979.generate_k(order, secexp, hf, digest)
+        except Exception as e:  # noqa
+            got = "exception " + common.errname(e)
+        del hf
+        gc.collect()
+        if got != want:
+            return {"iteration": i, "digest_size": size, "got": got, "expected": want,
+                    "why": "nonce differs from RFC 6979 with the hash handed in (depends on hash objects used earlier)"}
+    return None
+
+
 def correspond(ctx):
     from ecdsa import rfc6979, SigningKey, curves
     rng = ctx.rng
@@ -294,6 +350,36 @@ def correspond(ctx):
         rec, th = recorded(run)
         c.add("sign_det %d %d %d %s x %s %s" % (cv.order, sk.privkey.secret_multiplier, hf().digest_size, hx(dg), rec.token(),
                                                 stab_token(res["stab"])), th, "curve " + cv.name)
+    # tiny curves: runs of five and more refused candidates
+    longruns = 0
+    for prm, cv, d, hf, dg in tiny_cases():
+        if prm != TINY[1] or hf is not hashlib.sha1 or dg[0] % 16:
+            continue
+        sk = SigningKey.from_secret_exponent(d, cv, hashfunc=hashlib.sha1)
+        res = {"stab": []}
+
+        def run():
+            return sign_det_recorded(sk, dg, hf, b"", res["stab"])[0]
+        rec, th = recorded(run)
+        nz = sum(1 for _, v in res["stab"] if v is None)
+        longruns += nz >= 5
+        c.add("sign_det %d %d %d %s x %s %s" % (prm[3], d, hf().digest_size, hx(dg), rec.token(), stab_token(res["stab"])), th,
+              "tiny curve, %s refused" % ("5+" if nz >= 5 else str(nz)))
+    ctx.hist("sign_det", "tiny_cases_with_5+_refused_candidates", longruns)
+    # the hash in force is the argument, else the key's default — also when the digest is longer than its output
+    for cv, keyhash, dlen, explicit in ((curves.NIST192p, hashlib.sha1, 32, None), (curves.NIST256p, hashlib.sha1, 48, None),
+                                       (curves.NIST256p, hashlib.sha256, 64, None), (curves.SECP256k1, hashlib.sha1, 64, hashlib.sha224),
+                                       (curves.NIST192p, hashlib.sha512, 20, None)):
+        sk = SigningKey.from_secret_exponent(rng.randrange(1, cv.order), cv, hashfunc=keyhash)
+        dg = bytes(rng.getrandbits(8) for _ in range(dlen))
+        force = explicit or keyhash
+        res = {"stab": []}
+
+        def run():
+            return sign_det_recorded(sk, dg, explicit, b"", res["stab"])[0]
+        rec, th = recorded(run)
+        c.add("sign_det %d %d %d %s x %s %s" % (cv.order, sk.privkey.secret_multiplier, force().digest_size, hx(dg), rec.token(),
+                                                stab_token(res["stab"])), th, "hash in force %s, digest %d bytes" % (force.__name__.replace("openssl_", ""), dlen))
     ctx.hist("sign_det", "toy_cases_with_rs_zero_retry", hits)
     c.run()
 
@@ -342,19 +428,23 @@ def check_k(rfc6979, n, x, hf, dg, rg, extra):
     return None
 
 
-def check_sign(sk, dg, hf, extra):
-    """deterministic signature = sign_digest at the RFC nonce (next candidate on r = 0 / s = 0), twice the same"""
+def check_sign(sk, dg, hf, extra, use_default=False):
+    """deterministic signature = sign_digest at the RFC nonce (next candidate on r = 0 / s = 0), twice the same.
+    The HMAC hash of RFC 6979 is the hash IN FORCE: the `hashfunc` argument, else (use_default: argument omitted) the
+    key's default hash — whatever the length of the digest."""
     from ecdsa.keys import RSZeroError
     n, d = sk.privkey.order, sk.privkey.secret_multiplier
     pair = lambda r, s, o: (r, s)
+    arg = None if use_default else hf
+    force = sk.default_hashfunc if use_default else hf
     try:
-        a = tuple(int(v) for v in sign_det_recorded(sk, dg, hf, extra)[0].split())
-        b = sk.sign_digest_deterministic(dg, hashfunc=hf, sigencode=pair, extra_entropy=extra, allow_truncate=True)
+        a = tuple(int(v) for v in sign_det_recorded(sk, dg, arg, extra)[0].split())
+        b = sk.sign_digest_deterministic(dg, hashfunc=arg, sigencode=pair, extra_entropy=extra, allow_truncate=True)
     except Exception as e:  # noqa
         return {"got": "exception " + common.errname(e) + ": " + str(e)[:200]}
     rg = 0
     while True:
-        k = ref_generate_k(n, d, hf, dg, rg, extra)
+        k = ref_generate_k(n, d, force, dg, rg, extra)
         try:
             want = sk.sign_digest(dg, sigencode=pair, k=k, allow_truncate=True)
             break
@@ -365,7 +455,8 @@ def check_sign(sk, dg, hf, extra):
         except Exception as e:  # noqa
             return {"got": "sign_digest(k=RFC nonce) raised " + common.errname(e)}
     if a != b or a != want:
-        return {"first": list(a), "second": list(b), "expected": list(want), "rfc_nonce": k, "candidates_skipped": rg}
+        return {"first": list(a), "second": list(b), "expected": list(want), "rfc_nonce": k, "candidates_skipped": rg,
+                "hash_in_force": getattr(force, "__name__", str(force)).replace("openssl_", "")}
     return None
 
 
@@ -434,6 +525,44 @@ def search(ctx):
         if bad:
             ctx.violation({"input": {"kind": "sign_data", "curve": cv.name, "d": sk.privkey.secret_multiplier, "data": msg.hex(), "hash": hf.__name__.replace("openssl_", ""), "extra": extra.hex()},
                            "observed": bad, "expected": "sign_deterministic(data) = sign_digest_deterministic(hash(data)) = ECDSA signature at the RFC 6979 nonce, every time"})
+    # tiny curves, deterministic and exhaustive: the retry loop must go on past five refused candidates
+    for prm, cv, d, hf, dg in tiny_cases():
+        sk = SigningKey.from_secret_exponent(d, cv, hashfunc=hashlib.sha1)
+        n_eval += 1
+        bad = check_sign(sk, dg, hf, b"")
+        if bad:
+            ctx.violation({"input": {"kind": "sign", "curve": "tiny:%s" % ",".join(str(x) for x in (prm[0], prm[1], prm[2], prm[3], prm[4][0], prm[4][1])),
+                                     "d": d, "digest": dg.hex(), "hash": hf.__name__.replace("openssl_", ""), "extra": ""}, "observed": bad,
+                           "expected": "standard ECDSA signature at the first RFC 6979 candidate that gives r != 0 and s != 0, however many are refused"})
+            if len(ctx.violations) >= 3:
+                return
+    # hash in force vs digest length: sha1 key / 32-, 48-, 64-byte digests; sha256 key / 64 bytes; explicit argument vs default
+    combos = [(hashlib.sha1, 32, None), (hashlib.sha1, 48, None), (hashlib.sha1, 64, None), (hashlib.sha256, 64, None), (hashlib.sha224, 32, None),
+              (hashlib.sha1, 32, hashlib.sha1), (hashlib.sha1, 64, hashlib.sha256), (hashlib.sha512, 32, hashlib.sha1), (hashlib.sha256, 20, None),
+              (hashlib.sha1, 28, hashlib.md5)]
+    for cv in (curves.NIST192p, curves.NIST256p, curves.SECP256k1) if ctx.quick else curves.curves:
+        for keyhash, dlen, explicit in combos:
+            sk = SigningKey.from_secret_exponent(rng.randrange(1, cv.order), cv, hashfunc=keyhash)
+            dg = bytes(rng.getrandbits(8) for _ in range(dlen))
+            n_eval += 1
+            bad = check_sign(sk, dg, explicit or keyhash, b"", use_default=explicit is None)
+            if bad:
+                ctx.violation({"input": {"kind": "sign_force", "curve": cv.name, "d": sk.privkey.secret_multiplier, "digest": dg.hex(),
+                                         "key_hash": keyhash.__name__.replace("openssl_", ""),
+                                         "hash_arg": explicit.__name__.replace("openssl_", "") if explicit else None, "extra": ""},
+                               "observed": bad, "expected": "RFC 6979 nonce derived with the hash in force (the hashfunc argument, else the key's default), whatever the digest length"})
+                if len(ctx.violations) >= 3:
+                    return
+    # user-defined hash callables created, used and dropped in a loop (alternating digest sizes)
+    for kind in ("partial", "class"):
+        for (order, secexp) in ((curves.NIST256p.order, 0xC9AFA9D845BA75166B5C215767B1D6934E50C3DB36E89B127B8A622B120F6721), (167, 140)):
+            sizes = churn_sizes(ctx.seed)
+            dg = hashlib.sha256(b"churn").digest()
+            n_eval += len(sizes)
+            bad = check_hash_churn(rfc6979, order, secexp, dg, sizes, kind)
+            if bad:
+                ctx.violation({"input": {"kind": "hash_churn", "callable": kind, "order": order, "secexp": secexp, "digest": dg.hex(), "sizes": sizes},
+                               "observed": bad, "expected": "every nonce = RFC 6979 with the hash handed to generate_k (replay re-runs the whole loop)"})
     ctx.cov["search_evaluations"] = n_eval
     ctx.hist("search", "oracle_cases", n_eval)
 
@@ -441,10 +570,23 @@ def search(ctx):
 def replay(rec):
     from ecdsa import rfc6979, SigningKey, curves
     i = rec["input"]
-    hf = hash_by_name(i["hash"]) if not hasattr(hashlib, i["hash"]) else getattr(hashlib, i["hash"])
+    hf = None
+    if "hash" in i:
+        hf = hash_by_name(i["hash"]) if not hasattr(hashlib, i["hash"]) else getattr(hashlib, i["hash"])
     if i["kind"] == "generate_k":
         return check_k(rfc6979, i["order"], i["secexp"], hf, bytes.fromhex(i["digest"]), i["retry_gen"], bytes.fromhex(i["extra"])) is not None
-    cv = toy() if i["curve"] == "toy167" else [c for c in curves.curves if c.name == i["curve"]][0]
+    if i["kind"] == "hash_churn":
+        return check_hash_churn(rfc6979, i["order"], i["secexp"], bytes.fromhex(i["digest"]), i["sizes"], i["callable"]) is not None
+    if i["curve"].startswith("tiny:"):
+        v = [int(x) for x in i["curve"][5:].split(",")]
+        cv = tiny_curve(v[0], v[1], v[2], v[3], (v[4], v[5]))
+    else:
+        cv = toy() if i["curve"] == "toy167" else [c for c in curves.curves if c.name == i["curve"]][0]
+    if i["kind"] == "sign_force":
+        keyhash = getattr(hashlib, i["key_hash"])
+        sk = SigningKey.from_secret_exponent(i["d"], cv, hashfunc=keyhash)
+        explicit = getattr(hashlib, i["hash_arg"]) if i["hash_arg"] else None
+        return check_sign(sk, bytes.fromhex(i["digest"]), explicit or keyhash, b"", use_default=explicit is None) is not None
     sk = SigningKey.from_secret_exponent(i["d"], cv, hashfunc=hashlib.sha1)
     if i["kind"] == "sign_data":
         return check_sign_data(sk, bytes.fromhex(i["data"]), hf, bytes.fromhex(i["extra"])) is not None
